@@ -166,7 +166,7 @@ def parse_states(out):
     return gen, dist
 
 
-def validate_traces(lines, workdir, name, shards=None, timeout=1800):
+def validate_traces(lines, workdir, name, shards=None, timeout=1800, profile="dev"):
     """Shard the trace (scenario-aligned), validate every shard with Trace.tla.
     Returns (viol list, stat dict, tlc states, tlc transitions)."""
     os.makedirs(workdir, exist_ok=True)
@@ -202,7 +202,7 @@ def validate_traces(lines, workdir, name, shards=None, timeout=1800):
 
     def one(fn):
         md = fn + ".md"
-        rc, out, dt = run_tlc(os.path.join(SPEC, "Trace.tla"), os.path.join(SPEC, "Trace.cfg"), md,
+        rc, out, dt = run_tlc(os.path.join(SPEC, "Trace.tla"), os.path.join(SPEC, "TraceRel.cfg" if profile == "rel" else "Trace.cfg"), md,
                               env={"TRACE": fn}, timeout=timeout)
         tags = parse_tagged(out)
         if rc != 0 or "VIOL" not in tags or "STAT" not in tags:
